@@ -44,11 +44,13 @@ pub struct Case {
     pub nontrivial: bool,
     /// skip the reference run (the oracle does not need it)
     pub no_ref: bool,
+    /// run through the plain CLI with the script stored under this relative path
+    pub cli_path: Option<String>,
 }
 
 impl Case {
     pub fn new(src: String, tag: u32, meta: String) -> Case {
-        Case { src, mode: Mode::Run, tag, meta, nontrivial: true, no_ref: false }
+        Case { src, mode: Mode::Run, tag, meta, nontrivial: true, no_ref: false, cli_path: None }
     }
 }
 
@@ -276,6 +278,54 @@ impl Ctx {
             judged.push(Judged { case: c, r, o });
         }
         Ok(judged)
+    }
+
+    /// Execute every case through the plain CLI (script stored under `case.cli_path`,
+    /// default `case.sd`), in parallel; the oracle sees the raw CLI outcome.
+    pub fn judge_cli<F>(&mut self, cases: Vec<Case>, oracle: F) -> Result<Vec<(Case, RefOutcome, subject::CliOutcome)>, MachineryError>
+    where
+        F: Fn(&Case, &RefOutcome, &subject::CliOutcome) -> Verdict + Sync,
+    {
+        self.transitions += cases.len() as u64;
+        let bin = self.bin.clone();
+        let results: Vec<Result<(RefOutcome, subject::CliOutcome, Verdict), MachineryError>> = cases
+            .par_iter()
+            .map(|c| {
+                let r = if c.no_ref {
+                    RefOutcome { stdout: vec![], result: RefResult::Ok, cyclic_touch: false, steps: 0 }
+                } else {
+                    eval::run(&c.src, REF_BUDGET)
+                };
+                let path = c.cli_path.clone().unwrap_or_else(|| "case.sd".to_string());
+                let o = subject::run_cli_at(&bin, c.src.as_bytes(), &path)?;
+                let v = oracle(c, &r, &o);
+                Ok((r, o, v))
+            })
+            .collect();
+        let mut out = Vec::with_capacity(cases.len());
+        for (c, res) in cases.into_iter().zip(results.into_iter()) {
+            let (r, o, v) = res?;
+            self.evaluations += 1;
+            self.cli_confirmations += 1;
+            let new_state = self.states.insert(h64(&(&c.src, &c.cli_path, c.tag)));
+            if c.nontrivial && new_state {
+                self.distinct_nontrivial += 1;
+                self.ref_shapes.insert(h64(&(ref_class(&r), shape_bytes(&r.stdout))));
+            }
+            self.outcomes.insert(h64(&(o.code, o.signal, shape_bytes(&o.stderr), shape_bytes(&o.stdout))));
+            if self.samples.len() < 3 && (self.evaluations == 1 || self.evaluations % 977 == 0) {
+                self.samples.push(json!({"case": c.src, "how": c.meta, "outcome": format!("exit {:?}", o.code)}));
+            }
+            if let Verdict::Violation { clause, detail } = v {
+                let bo = Outcome { class: o.class(), stdout: o.stdout.clone(), msg: o.stderr_str() };
+                self.report(&c, Some(&r), &bo, &clause, detail);
+            } else if o.class() != Class::Ok && o.class() != Class::Err {
+                let bo = Outcome { class: o.class(), stdout: o.stdout.clone(), msg: o.stderr_str() };
+                self.report(&c, Some(&r), &bo, "crash", format!("exit {:?} signal {:?}", o.code, o.signal));
+            }
+            out.push((c, r, o));
+        }
+        Ok(out)
     }
 
     /// Conformance pass: batch answers must equal the unmodified CLI path.
